@@ -20,6 +20,12 @@ pub enum Flavour {
     Async,
     /// async, with a spurious Pending before every read
     AsyncPending,
+    /// blocking, every read after the greeting preceded by a transient WouldBlock error; the harness
+    /// calls `receive` again after such an error (a caller with a read timeout)
+    BlockingInterrupted,
+    /// async, every `receive` future that returns Pending is dropped and a new one is created (what
+    /// `select!`/`timeout` around `receive` do)
+    AsyncCancelled,
 }
 
 pub const FLAVOURS: [Flavour; 3] = [Flavour::Blocking, Flavour::Async, Flavour::AsyncPending];
@@ -128,7 +134,11 @@ pub fn run_with(
     };
 
     match flavour {
-        Flavour::Blocking => {
+        Flavour::Blocking | Flavour::BlockingInterrupted => {
+            if flavour == Flavour::BlockingInterrupted {
+                st.interrupt_from = Some(greeting.len().max(1));
+                st.read_limit *= 2;
+            }
             let res = catch(|| {
                 let mut conn = match Connection::connect(ChunkReader(st)) {
                     Ok(c) => c,
@@ -148,6 +158,7 @@ pub fn run_with(
                             }
                         }
                         Ok(None) => break Terminal::CleanEof,
+                        Err(MpdProtocolError::Io(e)) if flavour == Flavour::BlockingInterrupted && e.kind() == io::ErrorKind::WouldBlock => continue,
                         Err(e) => break terminal_of(&e),
                     }
                 };
@@ -177,8 +188,9 @@ pub fn run_with(
                 }
             }
         }
-        Flavour::Async | Flavour::AsyncPending => {
-            let pending = flavour == Flavour::AsyncPending;
+        Flavour::Async | Flavour::AsyncPending | Flavour::AsyncCancelled => {
+            let pending = flavour != Flavour::Async;
+            let cancel = flavour == Flavour::AsyncCancelled;
             let res = catch(|| {
                 block_on(async {
                     let mut conn = match AsyncConnection::connect(AsyncChunkReader::new(st, pending)).await {
@@ -187,7 +199,8 @@ pub fn run_with(
                     };
                     obs.version = Some(conn.protocol_version().to_string());
                     let terminal = loop {
-                        match conn.receive().await {
+                        let received = if cancel { receive_cancelling(&mut conn) } else { conn.receive().await };
+                        match received {
                             Ok(Some(r)) => {
                                 let (o, mm) = observe_response(&r);
                                 obs.responses.push(o);
@@ -233,6 +246,19 @@ pub fn run_with(
         }
     }
     obs
+}
+
+/// Polls `receive` once; whenever it is Pending the future is dropped and a fresh one created.
+fn receive_cancelling(conn: &mut AsyncConnection<AsyncChunkReader>) -> Result<Option<Response>, MpdProtocolError> {
+    use std::{future::Future, task::{Context, Poll, Waker}};
+    let mut cx = Context::from_waker(Waker::noop());
+    for _ in 0..50_000_000u64 {
+        let mut fut = std::pin::pin!(conn.receive());
+        if let Poll::Ready(r) = fut.as_mut().poll(&mut cx) {
+            return r;
+        }
+    }
+    panic!("harness: receive never completes");
 }
 
 /// Short rendering of an observation for failure messages.
